@@ -203,7 +203,7 @@ class C21(Check):
         "payload pages are untouched before READY by construction (no relocations target them, no code in them has run)",
         "a wild failure (non-zero exit) when the output is busy is allowed by the statement; only exit-0 relinks must leave the new output",
     ]
-    quick_cases = 96
+    quick_cases = 80
     thorough_cases = 2000
     max_workers = 12
 
